@@ -230,7 +230,6 @@ enum Sel {
     Slot(usize),
     Bad(u8),
     UListener,
-    IListener,
     File,
 }
 
@@ -294,12 +293,10 @@ struct Stats {
     eagain: bool,
 }
 
-struct Engine<'c> {
-    ctx: &'c Ctx,
+struct Engine {
     s: Session,
     a: World,
     b: World,
-    root: PathBuf,
     inet: bool,
     ud_next: u64,
     fds_at_start: usize,
@@ -343,7 +340,7 @@ fn parse_cmsgs(ctrl: &[u64], controllen: usize) -> Vec<(i32, i32, Vec<i32>)> {
     out
 }
 
-impl<'c> Engine<'c> {
+impl Engine {
     fn cleanup(&mut self) {
         self.a.close_all();
         self.b.close_all();
@@ -377,7 +374,6 @@ impl<'c> Engine<'c> {
             Sel::Slot(i) => l.slots[i].expect("resolved slot is open"),
             Sel::Bad(k) => sys::bad_fd(k),
             Sel::UListener => l.ulisten,
-            Sel::IListener => l.ilisten,
             Sel::File => l.file,
         }
     }
@@ -845,7 +841,14 @@ impl<'c> Engine<'c> {
             let sqe = vh::runner::no_panic(name, || self.build_sqe(e))?;
             sqes.push(Sqe::Rusl(sqe));
         }
-        let cq = self.s.run(sqes)?;
+        let cq = match self.s.run(sqes) {
+            Ok(cq) => cq,
+            Err(f) => {
+                // entries may still be in flight: the memory they reference must outlive them
+                std::mem::forget(entries);
+                return Err(f);
+            }
+        };
         // ---- results; the root cause of a mismatch is the first entry that is neither as
         // expected nor merely cancelled
         let mut mism: Vec<(usize, i32)> = Vec::new();
@@ -873,6 +876,7 @@ impl<'c> Engine<'c> {
             let (i, res, before_issue) = root_cause(&mism, |i| (entries[i].lane, entries[i].pos), |i| cq.iter().find(|c| c.0 == entries[i].ud).unwrap().1, entries.len());
             let e = &entries[i];
             let (exp_s, class) = match &e.exp {
+                Expect::Exact(v) if res >= 0 && *v >= 0 => (show(*v), "value-differs".to_string()),
                 Expect::Exact(v) => (show(*v), format!("ring={} direct={}", cls(res), cls(*v))),
                 Expect::Cancelled => ("-ECANCELED (an earlier entry of the link chain failed)".to_string(), "not-cancelled".to_string()),
                 Expect::NewFd(_) => ("a new descriptor".to_string(), format!("ring={} direct=fd", cls(res))),
@@ -1109,7 +1113,7 @@ pub fn run_case(ctx: &Ctx, case: &SockCase) -> CaseResult {
     let a = World::create(&format!("{}/A", root.display()), inet);
     let b = World::create(&format!("{}/B", root.display()), inet);
     let inet = inet && a.lanes.iter().chain(b.lanes.iter()).all(|l| l.ilisten >= 0);
-    let mut e = Engine { ctx, s, a, b, root, inet, ud_next: 0x2_0000, fds_at_start, st: Stats::default(), model: (0..NL).map(|_| LaneModel::default()).collect(), ring_connect: case.ring_connect, accept_addr: case.accept_addr };
+    let mut e = Engine { s, a, b, inet, ud_next: 0x2_0000, fds_at_start, st: Stats::default(), model: (0..NL).map(|_| LaneModel::default()).collect(), ring_connect: case.ring_connect, accept_addr: case.accept_addr };
     // every lane starts with one established connection: slot 0 the client, slot 1 the accepted end
     for l in 0..NL {
         e.direct_connect(l, false);
@@ -1145,7 +1149,6 @@ pub fn run_case(ctx: &Ctx, case: &SockCase) -> CaseResult {
     let submitted = e.s.submitted;
     let sq = e.s.sq_entries as u64;
     e.cleanup();
-    let _ = e.ctx;
     res?;
     let st = &e.st;
     let mut rep = CaseReport::new();
